@@ -159,6 +159,7 @@ def analyse(items):
                 name = prefix + it['n']
                 if k == 'def':
                     lines.append('%s%s %s = %s' % (pad, it['n'], it['ty'], render_value(it['ty'], it['v'])))
+                    nodeline = lines[-1]
                     p = it.get('p')
                     if p == 'constant':
                         lines.append(pad + '  !constant')
@@ -175,8 +176,9 @@ def analyse(items):
                 else:
                     ty = env[name]['ty'] if name in env else it.get('ty', 'int')
                     lines.append('%s%s = %s' % (pad, it['n'], render_value(it.get('ty') or ty, it['v'])))
+                    nodeline = lines[-1]
                 ev = emit(dict(ev='w', kind=k, name=name, ty=it.get('ty'), v=it['v'], p=it.get('p'),
-                               chain=tuple(chain), taken=active, line=lines[-1]))
+                               chain=tuple(chain), taken=active, line=nodeline))
                 if active:
                     if name in env:
                         if k == 'def' and env[name]['ty'] != it['ty']:
@@ -491,6 +493,8 @@ class _Gen:
         self.nm = _Names()
         self.nblocks = 0
         self.nlines = 0
+        self.maxblocks = rng.choice([3, 5, 8, 12])
+        self.maxlines = rng.choice([12, 20, 30, 50])
 
     def value(self, ty):
         v = self.nm.val()
@@ -526,12 +530,12 @@ class _Gen:
         for _ in range(n):
             self.nlines += 1
             r = rng.random()
-            can_block = depth < self.maxdepth and self.nblocks < 14 and self.nlines < 70 and not prev_indent_block
+            can_block = depth < self.maxdepth and self.nblocks < self.maxblocks and self.nlines < self.maxlines and not prev_indent_block
             if r < 0.38 and can_block:
                 b = self.block(depth, scope)
                 out.append(b)
                 prev_indent_block = b['close'] == 'indent'
-            elif r < 0.48 and scope['gdepth'] < 2 and self.nlines < 70:
+            elif r < 0.48 and scope['gdepth'] < 2 and self.nlines < self.maxlines:
                 out.append(self.group(depth, scope, in_clause))
                 prev_indent_block = False
             else:
